@@ -403,13 +403,19 @@ func wrongWire(c *tspace.Col) []interface{} {
 		} else {
 			add(ovsdb.OvsMap{GoMap: map[interface{}]interface{}{1.0: wireOK(c.Val.Type)}})
 		}
+		if c.Val.Type == "integer" {
+			add(ovsdb.OvsMap{GoMap: map[interface{}]interface{}{wireOK(c.Key.Type): -3.75}})
+		}
+		if c.Key.Type == "integer" {
+			add(ovsdb.OvsMap{GoMap: map[interface{}]interface{}{-0.5: wireOK(c.Val.Type)}})
+		}
 		if c.Val.Type != "string" {
 			add(ovsdb.OvsMap{GoMap: map[interface{}]interface{}{wireOK(c.Key.Type): "v"}})
 		} else {
 			add(ovsdb.OvsMap{GoMap: map[interface{}]interface{}{wireOK(c.Key.Type): true}})
 		}
 	default:
-		for _, v := range []interface{}{"x", 1.0, 1.5, true, ovsdb.UUID{GoUUID: "00000001-0000-4000-8000-000000000000"}} {
+		for _, v := range []interface{}{"x", 1.0, 1.5, -1.5, -0.25, true, ovsdb.UUID{GoUUID: "00000001-0000-4000-8000-000000000000"}} {
 			if !wireFits(c.Key.Type, v) {
 				add(v)
 				if !c.IsScalar() {
